@@ -48,7 +48,7 @@ CONFIGS = [
 SYMS_IN = ["CER_known", "CER_unknown", "CER_nocommon", "CER_relay", "CEA_2001", "CEA_3xxx", "CEA_5xxx",
            "DWR", "DWA", "DPR", "DPA", "REQ", "ANS", "ADV1", "ADVT"]
 SYMS_OUT = ["CEA_2001", "CEA_3xxx", "CEA_5xxx", "CER_known", "DWR", "DWA", "DPR", "DPA", "REQ", "ANS",
-            "ADV1", "ADVT", "CEA_2001_vsa"]
+            "ADV1", "ADVT", "CEA_2001_vsa", "CEA_2002", "CEA_1001", "CEA_4xxx"]
 CER_SYMS = {"CER_known", "CER_unknown", "CER_nocommon", "CER_relay"}
 
 
@@ -358,7 +358,8 @@ def make_msg(s, hbh, conn, c):
         conn.refresh()
         cers = [f for f in conn.out if f.code == W.CMD_CE and f.is_request]
         ids = {"hbh": cers[-1].h["hbh"], "e2e": cers[-1].h["e2e"]} if cers else base
-        rc = {"CEA_2001": 2001, "CEA_3xxx": 3010, "CEA_5xxx": 5010, "CEA_2001_vsa": 2001}[s]
+        rc = {"CEA_2001": 2001, "CEA_3xxx": 3010, "CEA_5xxx": 5010, "CEA_2001_vsa": 2001, "CEA_2002": 2002,
+              "CEA_1001": 1001, "CEA_4xxx": 4003}[s]
         m = dict(ids, k="CEA", host="peer1.example", result=rc, auth=sorted(auth) or [4], acct=sorted(acct))
         return m
     if s in ("DWR", "DWA", "DPR", "DPA"):
@@ -396,7 +397,7 @@ def shard_main(shard, nshards, tier, scale):
             for b in behind_syms:
                 for a in sorted(CER_SYMS):
                     jobs.append({"cfg": ci, "dir": "in", "syms": prefix + [f"{a}+{b}", "ADV1", "REQ"]})
-                for a in ("CEA_2001", "CEA_3xxx", "CEA_5xxx"):
+                for a in ("CEA_2001", "CEA_3xxx", "CEA_5xxx", "CEA_2002"):
                     jobs.append({"cfg": ci, "dir": "out", "syms": prefix + [f"{a}+{b}", "ADV1", "REQ"]})
     for ci, cc in enumerate(CONFIGS):
         if cc["peers"] >= 2 and cc["apps"]:
